@@ -15,3 +15,11 @@ Definition harvest_check (c : harvest_in (T:=float) * harv_obs) : nat :=
    + (if float_same (ho_dsumm m) (hv_dsumm o) then 0 else 2)
    + (if float_same (ro_nresid (ho_res m)) (hv_nresid o) && float_same (ro_nagb (ho_res m)) (hv_nagb o) then 0 else 4)
    + (if negb (hv_pesum_kept o) || float_same (ho_pesum m) (hv_pesum o) then 0 else 8))%nat.
+
+(* the simulated dressing of the fertiliser prognosis (hermes.SimulateFertilizationAfterPrognose, exported): inputs
+   (C1[0], DTGESN, SUMDIFF + TRNSUM as the code adds them, WG[0][0], DZ, DUNGBED), observed C1[0] and DUNGBED afterwards *)
+Definition prog_check (c : float * float * float * float * float * float * (float * float)) : nat :=
+  let '(c10, dtgesn, angebot, wg0, dz, dungbed, (o_c1, o_dungbed)) := c in
+  let '(c1', bed) := prog_dress c10 dtgesn angebot wg0 dz in
+  ((if float_same c1' o_c1 then 0 else 1)
+   + (if float_same (if PrimFloat.ltb angebot dtgesn then PrimFloat.add dungbed bed else dungbed) o_dungbed then 0 else 2))%nat.
